@@ -438,6 +438,11 @@ class IndividualParameters:
                     final_names[split] = []
                 final_names[split].append(name)
 
+        # components of a vector parameter are ordered by their integer suffix, whatever the column order
+        for cols in final_names.values():
+            if isinstance(cols, list):
+                cols.sort(key=lambda c: int(c.rpartition("_")[2]) if c.rpartition("_")[2].isdigit() else 0)
+
         # Create the individual parameters
         ip = IndividualParameters()
 
